@@ -113,11 +113,13 @@ package types
 //@   ensures fresh(result) && result != tx && fieldsEqual(result, tx)
 
 //@ func (*Signature).Clone [C16]
+//@   opt deadreturns=allowed
 //@   frame allocates
 //@   ensures sig == nil ==> result == nil
 //@   ensures sig != nil ==> fresh(result) && result != sig && fieldsEqual(result, sig)
 
 //@ func (*Transaction).Clone [C16]
+//@   opt deadreturns=allowed
 //@   frame allocates
 //@   ensures tx == nil ==> result == nil
 //@   ensures tx != nil ==> fresh(result) && fieldsEqualExcept(result, tx, Signature)
